@@ -10,7 +10,7 @@ fn arg(args: &[String], name: &str) -> Option<String> { args.iter().position(|a|
 
 fn main() {
     // panics of the code under test are data; keep their messages out of the way
-    std::panic::set_hook(Box::new(|_| {}));
+    if std::env::var("VERIF_SHOW_PANICS").is_err() { std::panic::set_hook(Box::new(|_| {})); }
     let args: Vec<String> = std::env::args().collect();
     let seed: u64 = arg(&args, "--seed").and_then(|s| s.parse().ok()).unwrap_or(1);
     let out = arg(&args, "--out").unwrap_or_else(|| "trace.ndjson".into());
@@ -35,6 +35,7 @@ fn main() {
     for i in 0..n_faithful { scripts.push(gen::faithful(seed.wrapping_mul(3_000_017).wrapping_add(i), len)); }
     for i in 0..n_wrap { scripts.push(gen::wraparound(seed.wrapping_add(i), 66000)); }
 
+    if let Some(only) = arg(&args, "--only").and_then(|s| s.parse::<usize>().ok()) { scripts = vec![scripts[only - 1].clone()]; }
     let mut tr = Trace::new();
     let (mut panics, mut skipped, mut limits) = (0u64, 0u64, 0u64);
     for (i, s) in scripts.iter().enumerate() {
